@@ -129,15 +129,15 @@ def rule_revocable(ctx, ig, cp, prop='C04'):
         key = ctx.key(e.frame.func, None, f'{e.store} {"delete" if "DELETE" in e.kind else "put"} {prov}')
         if e.kind in ('DIRECT_PUT', 'DIRECT_DELETE'):
             ctx.bad(f'{prop}.REVOCABLE', key, f'direct (unbatched) {e.store} write ahead of the commit point: {e.text()}',
-                    loc=f'{e.frame.func.unit.relpath}:{a.lineno}')
+                    loc=f'{e.frame.func.unit.relpath}:{int(round(a.lineno))}')
         elif e.store == 'HIST' and e.kind == 'PUT' and prov in ('NEW-TAGGED', 'STATE'):
             ctx.ok(f'{prop}.REVOCABLE', key, f'history put ahead of the commit point is revocable ({prov}: {why})',
-                   f'{e.frame.func.unit.relpath}:{a.lineno}')
+                   f'{e.frame.func.unit.relpath}:{int(round(a.lineno))}')
         else:
             ctx.bad(f'{prop}.REVOCABLE', key,
                     f'{e.store} {e.kind.lower()} under an {prov} key is committed ahead of the UTXO state commit and cannot be '
                     f'revoked on open ({why}): a crash between the two commits loses or corrupts committed data',
-                    witness=[e.text()], loc=f'{e.frame.func.unit.relpath}:{a.lineno}')
+                    witness=[e.text()], loc=f'{e.frame.func.unit.relpath}:{int(round(a.lineno))}')
     return n
 
 
@@ -253,19 +253,19 @@ def rule_atomic(ctx, ig, cp, prop='C04'):
             # the handle is still in scope after the `with` block, but the batch was written when the block was left
             ctx.bad(f'{prop}.ATOMIC', ctx.key(e.frame.func, e.call, 'after the batch was committed'),
                     f'{e.text()} is queued on the batch AFTER its `with` block has been left: the batch is already written, the operation '
-                    'is silently dropped (or lands in a second write) - the rows are committed without it', loc=f'{e.frame.func.unit.relpath}:{e.call.lineno}')
+                    'is silently dropped (or lands in a second write) - the rows are committed without it', loc=f'{e.frame.func.unit.relpath}:{int(round(e.call.lineno))}')
         elif inb:
             ctx.ok(f'{prop}.ATOMIC', ctx.key(e.frame.func, e.call, 'in commit batch'),
                    'UTXO mutation is part of the batch that carries the state record',
-                   f'{e.frame.func.unit.relpath}:{e.call.lineno}')
+                   f'{e.frame.func.unit.relpath}:{int(round(e.call.lineno))}')
         elif e.kind == 'DIRECT_PUT' and prov == 'STATE' and after_cp:
             ctx.ok(f'{prop}.ATOMIC', ctx.key(e.frame.func, e.call, 'post-commit state rewrite'),
                    'direct write after the commit point is the state record only',
-                   f'{e.frame.func.unit.relpath}:{e.call.lineno}')
+                   f'{e.frame.func.unit.relpath}:{int(round(e.call.lineno))}')
         else:
             ctx.bad(f'{prop}.ATOMIC', ctx.key(e.frame.func, e.call, 'outside commit batch'),
                     f'UTXO store {e.kind} outside the batch that carries the state record: {e.text()} '
-                    '(rows and state can be torn apart by a crash)', loc=f'{e.frame.func.unit.relpath}:{e.call.lineno}')
+                    '(rows and state can be torn apart by a crash)', loc=f'{e.frame.func.unit.relpath}:{int(round(e.call.lineno))}')
         n += 1
     # the state record copy used for the batch is taken inside the batch, from the flushed state
     return n
@@ -732,7 +732,7 @@ def rule_logical_file(ctx, prop='C04'):
         if isinstance(x, ast.Name) and isinstance(x.ctx, ast.Load) and x.id not in varying and x.id not in f.params:
             for st, rhs in d.get(x.id, []):
                 if rhs is not None and not q.in_body(st, lp.body) and (df.names_loaded(rhs) & varying):
-                    stale.append(f'{x.id} = {norm(rhs)[:50]} (line {st.lineno})')
+                    stale.append(f'{x.id} = {norm(rhs)[:50]} (line {int(round(st.lineno))})')
     stale = sorted(set(stale))
     ctx.check(not stale and {sv, bv} <= varying, rule, ctx.key(f, lp, 'piece size from the running offset'),
               'the size of each piece is computed from the running offset inside the loop; offset and data both advance',
@@ -797,7 +797,7 @@ def rule_unflushed_kept(ctx, prop='C04'):
             continue
         n += 1
         if q.in_body(site, w.body) or site.lineno <= end:
-            bad.append(f'{norm(q.stmt(site) if not isinstance(site, ast.stmt) else site)[:70]} (line {site.lineno})')
+            bad.append(f'{norm(q.stmt(site) if not isinstance(site, ast.stmt) else site)[:70]} (line {int(round(site.lineno))})')
     ctx.check(n >= 1 and not bad, rule, ctx.key(f, w, 'released after the commit'),
               'the unflushed history is released only after its batch was committed',
               f'unflushed history is released before its batch is committed: {bad}' if bad else 'History.flush never releases the unflushed history',
@@ -921,7 +921,7 @@ def rule_state_moves_with_commit(ctx, prop='C04'):
     for m in moves:
         conds = pr.control_conditions(m, fd.node)
         if not any(b and isinstance(t, ast.Name) and t.id == fup for t, b, _p in conds):
-            bad.append(f'line {m.lineno} `{norm(m)[:50]}`')
+            bad.append(f'line {int(round(m.lineno))} `{norm(m)[:50]}`')
     ctx.check(not bad and bool(moves), rule, ctx.key(fd, None, 'state re-written only with a UTXO flush'),
               f'in flush_dbs DB.state is moved / re-written only under `if {fup}`',
               f'{"; ".join(bad)} is not conditional on `{fup}`: a history-only flush then stores the block processor\'s state, which is ahead of '
